@@ -2,10 +2,11 @@
 
 package c08
 
-// How the constants in sampled_test.go were found: walk R = [k0+i]G with the
+// How the sampledScalars in common_test.go were found: walk R = [k0+i]G with the
 // reference model only (one affine addition per step) and keep the first k
 // whose x-coordinate's low half (the part that enters x-bar) matches a
-// pattern. Run with
+// pattern. The start value is a 33-byte number (larger than n); the constants
+// recorded in common_test.go are the found k reduced mod n (same point). Run with
 //
 //	go test -tags verif,c08search -run TestSearchSampled -count=1 ./c08
 
